@@ -67,6 +67,34 @@ Theorem C17_subdir_not_scanned : scanned false [[1; 2]] [1; 2; 3] = false /\ sca
 Proof. vm_compute. auto. Qed.
 Print Assumptions C17_subdir_not_scanned.
 
+(* the file name: a template that starts with the revision id gives a name the loader accepts whenever the id does not
+   start with a dot or an underscore, whatever the message, slug length and remaining tokens *)
+Theorem C17_filename_prefix_ok : forall is_word lower rest c r msg trunc, c <> 46 -> c <> 95 ->
+  has_prefix (lit ".#") (rev_filename is_word lower (TRevId :: rest) (c :: r) msg trunc) = false /\
+  has_prefix (lit "__init__") (rev_filename is_word lower (TRevId :: rest) (c :: r) msg trunc) = false.
+Proof. exact RevHeaderProof.filename_prefix_ok. Qed.
+Print Assumptions C17_filename_prefix_ok.
+
+(* the default shape (revision id, then a separator no id contains): different ids never share a file *)
+Theorem C17_filename_injective : forall is_word lower sep l rest r1 r2 m1 m2 t1 t2, ~ In sep r1 -> ~ In sep r2 ->
+  rev_filename is_word lower (TRevId :: TLit (sep :: l) :: rest) r1 m1 t1
+  = rev_filename is_word lower (TRevId :: TLit (sep :: l) :: rest) r2 m2 t2 -> r1 = r2.
+Proof. exact RevHeaderProof.filename_injective. Qed.
+Print Assumptions C17_filename_injective.
+
+(* outside that shape both fail: a template that starts with the slug and a message that starts with __init__ give a file
+   the loader skips; a template without the revision id makes two revisions with one message share (overwrite) a file *)
+Theorem C17_filename_refuted :
+  loadable_name (rev_filename is_ident_char (fun c => [c]) [TSlug; TLit (lit "_"); TRevId] (lit "r1") (lit "__init__ of the schema") 40) = false
+  /\ rev_filename is_ident_char (fun c => [c]) [TSlug] (lit "r1") (lit "add table") 40
+     = rev_filename is_ident_char (fun c => [c]) [TSlug] (lit "r2") (lit "add table") 40.
+Proof. split; vm_compute; reflexivity. Qed.
+Print Assumptions C17_filename_refuted.
+
+Theorem C17_decider_complete : forall i o, C17_holds i o -> check_C17 i o = true.
+Proof. exact C17Proof.decider_complete. Qed.
+Print Assumptions C17_decider_complete.
+
 Theorem C17_decider_sound : forall i o, check_C17 i o = true -> C17_holds i o.
 Proof. exact C17Proof.decider_sound. Qed.
 Print Assumptions C17_decider_sound.
@@ -84,11 +112,11 @@ Create Date: 2026-01-01
 
 ".
 Definition ex_steps : c17_in :=
-  [mkStep (mkF 9 [] [] []) (lit "rejected") [] [] [] [] ex_doc [[1; 2]] false [1; 2; 3];
-   mkStep (mkF 0 [] [] [7]) (lit "r0") [] [lit "lab'0"] [] [] ex_doc [[1; 2]] false [1; 2];
-   mkStep (mkF 1 [0] [] []) (lit "r1") [lit "r0"] [] [] [] ex_doc [[1; 2]] false [1; 2];
-   mkStep (mkF 2 [] [7; 1] [8]) (lit "r2é") [] [lit "b"] [lit "lab'0"; lit "r1"] [] ex_doc [[1; 2]] false [1; 2];
-   mkStep (mkF 3 [1; 2] [] []) (lit "r3") [lit "r1"; lit "r2é"] [] [] [] ex_doc [[1; 2]] false [1; 2]].
+  [mkStep (mkF 9 [] [] []) (lit "rejected") [] [] [] [] ex_doc [[1; 2]] false [1; 2; 3] [TRevId; TLit (lit "_"); TSlug] (lit "Add it") 40%nat [65; 100; 105; 116] [(65, [97])];
+   mkStep (mkF 0 [] [] [7]) (lit "r0") [] [lit "lab'0"] [] [] ex_doc [[1; 2]] false [1; 2] [TRevId; TLit (lit "_"); TSlug] (lit "Add it") 40%nat [65; 100; 105; 116] [(65, [97])];
+   mkStep (mkF 1 [0] [] []) (lit "r1") [lit "r0"] [] [] [] ex_doc [[1; 2]] false [1; 2] [TRevId; TLit (lit "_"); TSlug] (lit "Add it") 40%nat [65; 100; 105; 116] [(65, [97])];
+   mkStep (mkF 2 [] [7; 1] [8]) (lit "r2é") [] [lit "b"] [lit "lab'0"; lit "r1"] [] ex_doc [[1; 2]] false [1; 2] [TRevId; TLit (lit "_"); TSlug] (lit "Add it") 40%nat [65; 100; 105; 116] [(65, [97])];
+   mkStep (mkF 3 [1; 2] [] []) (lit "r3") [lit "r1"; lit "r2é"] [] [] [] ex_doc [[1; 2]] false [1; 2] [TRevId; TLit (lit "_"); TSlug] (lit "Add it") 40%nat [65; 100; 105; 116] [(65, [97])]].
 Example C17_main_nonvacuous : inclass_C17 ex_steps = true /\ length (model_C17 ex_steps) = 5%nat /\ check_C17 ex_steps (model_C17 ex_steps) = true.
 Proof. vm_compute. auto. Qed.
 Example C17_incremental_nonvacuous : exists L, load [mkF 0 [] [] [7]; mkF 1 [0] [] []] = MOk L /\ wf_new [mkF 0 [] [] [7]; mkF 1 [0] [] []] (mkF 2 [] [7; 1] [8]) = true.
